@@ -176,6 +176,11 @@ fn replay_agg(rep: &mut Report, v: &Value, laws: Option<&Laws3>) {
     agg_cell!(rep, v, skey, &e, mp, "Vec<f64>.titer()", vf.titer(), of64, of64);
     agg_cell!(rep, v, skey, &e, mp, "Vec<f64> (owned)", vf.clone(), of64, of64);
     agg_cell!(rep, v, skey, &e, mp, "Vec<f64>.opt()", vf.opt().titer(), of64, ooptf);
+    // sources whose size hint has a lower bound below the number of items (any iterator is a legal
+    // source; the thresholds are about VALID OBSERVATIONS, not about what the source announces)
+    agg_cell!(rep, v, skey, &e, mp, "Vec<f64>.titer().filter(all)", vf.titer().filter(|_| true), of64, of64);
+    agg_cell!(rep, v, skey, &e, mp, "Vec<Option<f64>>.into_iter().filter_map(Some)", vo.clone().into_iter().filter_map(Some), of64, ooptf);
+    agg_cell!(rep, v, skey, &e, mp, "Vec<f64>.titer().flat_map(once)", vf.titer().flat_map(Some), of64, of64);
     agg_cell!(rep, v, skey, &e, mp, "Vec<Option<f64>>.titer()", vo.titer(), of64, ooptf);
     agg_cell!(rep, v, skey, &e, mp, "Vec<Option<f64>> (owned)", vo.clone(), of64, ooptf);
     agg_cell!(rep, v, skey, &e, mp, "Vec<Option<i32>>.titer()", voi.titer(), o_oi, |x: Option<Option<i32>>| o_oi(x.flatten()));
